@@ -122,6 +122,10 @@ class MidCircuitWorld(World):
 
     def gen(self, step):
         rng, cfg = self.ctx.ops, self.config
+        if self.prog_pool and rng.random() < 0.12:
+            perm = list(range(8))
+            rng.shuffle(perm)
+            return {"k": "mutate_prog", "i": rng.randrange(8), "perm": perm}
         n = rng.randint(1, cfg["max_width"])
         kind = rng.choice(cfg["ctrl_kinds"])
         if rng.random() < cfg.get("wide_p", 0.0):
@@ -145,7 +149,7 @@ class MidCircuitWorld(World):
         init = C.gen_state(rng, n) if rng.random() < cfg["init_p"] else None
         mode = rng.choice(["exact", "exact", "shots", "shots", "shots", "applied", "desired_shots"])
         op = {"k": mode, "gates": gates, "n": n, "init": init, "ctrl": ctrl}
-        if self.prog_pool and rng.random() < 0.3:
+        if self.prog_pool and rng.random() < 0.35:
             op["reuse"] = rng.randrange(8)
         if mode == "desired_shots":
             op["branch"] = rng.randrange(64)
@@ -173,6 +177,25 @@ class MidCircuitWorld(World):
 
     def apply(self, op):
         ctx, V, k = self.ctx, [], op["k"]
+        if k == "mutate_prog":
+            # a long-lived circuit object is relabelled in place between two simulations (public reindex_qubits)
+            if not self.prog_pool:
+                ctx.outcome(k, "skipped")
+                return V
+            pe = self.prog_pool[op["i"] % len(self.prog_pool)]
+            n = pe["n"]
+            perm = [p for p in op["perm"] if p < n]
+            if n < 2 or perm == list(range(n)):
+                ctx.outcome(k, "skipped")
+                return V
+            pe["circ"].reindex_qubits(perm)
+            pe["gates"] = [[g[0], [perm[q] for q in g[1]], ([perm[q] for q in g[2]] if g[2] is not None else None), g[3], g[4]] for g in pe["gates"]]
+            top = [C.snap_to_j(x) for x in C.snap_circuit(pe["circ"])]
+            if [(g[0], list(g[1]), g[2]) for g in top] != [(g[0], list(g[1]), g[2]) for g in pe["gates"]]:
+                raise HarnessError("program pool model out of sync after reindex_qubits")
+            ctx.outcome(k, "ok")
+            ctx.probe("C10.circuit_object_relabelled_between_simulations")
+            return V
         pe = None
         if op.get("reuse") is not None and self.prog_pool:
             # a long-lived circuit object (with its controller) simulated again, in another mode / with another initial state
